@@ -24,6 +24,11 @@ Subset (anything else raises c2lean.Untranslatable = the tie is broken, never si
     are translated; from the first declaration of a function-static or the first loop on, the rest of the body is ONE abstract
     input `x_rest` (the Marsaglia-Tsang rejection loop is not modelled).  A call of the function itself is an abstract input
     `x_self<i>` together with the number of raw words it consumed, `n_self<i>` (the draw counter advances by it).
+  * FRAGMENTS (gen_rngdist.FRAGMENTS: the tail branch of cmi_random_nor_not_hot): of a function that is otherwise outside the
+    subset, the one `do { body } while (cond);` loop and the `return` that follows it are translated on their own:
+    `<fn>_tail_iter` = ONE iteration (the straight-line body with the calls of untranslated samplers as abstract inputs, then the
+    loop condition: `true` = go round again) returning the assigned locals and the condition; `<fn>_tail_result` = the returned
+    expression as a function of the locals it reads.  Locals read before they are assigned become parameters.
   * a full expression with two side effects on the same variable, or a side effect on a variable it also reads elsewhere,
     is rejected (unsequenced in C).
 """
@@ -921,6 +926,115 @@ class DistTranslator:
             rt_l = "Option (%s)" % rt_l
         text = "def %s %s : %s :=\n%s\n" % (name, " ".join(sig), rt_l, "\n".join(ind(lines)))
         return text, info
+
+    # ---- fragments ------------------------------------------------------------------------------------------
+    def find_do_while(self, fn):
+        """the one do-while loop of `fn` that is not an assert, and the statement that follows it in its block"""
+        found = []
+
+        def rec(n):
+            if not isinstance(n, dict):
+                return
+            if n.get("kind") == "CompoundStmt":
+                ks = kids(n)
+                for i, st in enumerate(ks):
+                    if st.get("kind") == "DoStmt" and not self.debug_assert_noop(st):
+                        found.append((st, ks[i + 1] if i + 1 < len(ks) else None))
+            for c in kids(n):
+                rec(c)
+        rec(fn)
+        if len(found) != 1:
+            raise Untranslatable("%s: expected exactly one do-while loop, found %d" % (fn.get("name"), len(found)))
+        return found[0]
+
+    def local_types(self, fn):
+        env = {}
+
+        def rec(n):
+            if isinstance(n, dict):
+                if n.get("kind") in ("VarDecl", "ParmVarDecl") and n.get("storageClass") != "static":
+                    r = self.rep_of_type(qt(n), soft=True)
+                    if r is not None:
+                        env[n["name"]] = r
+                for c in kids(n):
+                    rec(c)
+        rec(fn)
+        return env
+
+    def local_reads(self, n, env, acc):
+        """locals whose VALUE is used below n (the plain left side of an assignment is not a read)"""
+        if not isinstance(n, dict):
+            return acc
+        if n.get("kind") == "BinaryOperator" and n.get("opcode") == "=":
+            l, r_ = kids(n)
+            if strip(l).get("kind") != "DeclRefExpr":
+                self.local_reads(l, env, acc)
+            return self.local_reads(r_, env, acc)
+        if n.get("kind") == "DeclRefExpr":
+            nm = n.get("referencedDecl", {}).get("name")
+            if nm in env and nm not in acc:
+                acc.append(nm)
+            return acc
+        for c in kids(n):
+            self.local_reads(c, env, acc)
+        return acc
+
+    def do_while_fragment(self, fn, stem):
+        """-> (lean text of <stem>_iter and <stem>_result, info)"""
+        do, after = self.find_do_while(fn)
+        body, cnd = kids(do)
+        if after is None or after.get("kind") != "ReturnStmt":
+            raise Untranslatable("%s: the do-while loop is not followed by a return" % fn["name"])
+        env_all = self.local_types(fn)
+        out = []
+        infos = []
+        # ---- one iteration
+        info = FnInfo(stem + "_iter")
+        f = type("F", (), {})()
+        f.info, f.env, f.loop_depth = info, dict(env_all), 0
+        stmts = kids(body) if body.get("kind") == "CompoundStmt" else [body]
+        assigned, params, lines = [], [], []
+        for st in stmts:
+            for v in self.local_reads(st, env_all, []):
+                if v not in assigned and v not in params:
+                    params.append(v)
+            ls = self.simple_stmt(st, f)
+            if ls is None:
+                raise Untranslatable("%s: statement %s inside the do-while body is outside the subset" % (fn["name"], st.get("kind")))
+            lines += ls
+            for v in self.assigned(st):
+                if v in env_all and v not in assigned:
+                    assigned.append(v)
+        for v in self.local_reads(cnd, env_all, []):
+            if v not in assigned and v not in params:
+                params.append(v)
+        pre = []
+        self.check_full_expression(cnd)
+        ec = self.cond(cnd, f, pre)
+        if pre or info.draws or info.statics or info.fuel:
+            raise Untranslatable("%s: side effect in the do-while condition / draw in the fragment" % fn["name"])
+        sig = ["(%s : %s)" % (lname(v), self.lean_type(env_all[v])) for v in params]
+        sig += ["(%s : K → K)" % m if m != "fpow" else "(fpow : K → K → K)" for m in info.libm]
+        sig += ["(%s : K)" % nm for nm, _ in info.ext]
+        rt = " × ".join([self.lean_type(env_all[v]) for v in assigned] + ["Bool"])
+        res = "(" + ", ".join([lname(v) for v in assigned] + ["decide %s" % ec]) + ")"
+        out.append("def %s_iter %s : %s :=\n%s\n" % (stem, " ".join(sig), rt, "\n".join(ind(lines + [res]))))
+        infos.append({"name": stem + "_iter", "parameters": params, "assigned": assigned, "abstract_inputs": [e[1] for e in info.ext]})
+        # ---- the value returned after the loop
+        info2 = FnInfo(stem + "_result")
+        f2 = type("F", (), {})()
+        f2.info, f2.env, f2.loop_depth = info2, dict(env_all), 0
+        rexpr = kids(after)[0]
+        rparams = self.local_reads(rexpr, env_all, [])
+        pre = []
+        e = self.expr(rexpr, f2, pre)
+        if pre or info2.ext:
+            raise Untranslatable("%s: side effect / draw in the return after the do-while" % fn["name"])
+        sig = ["(%s : %s)" % (lname(v), self.lean_type(env_all[v])) for v in rparams]
+        sig += ["(%s : K → K)" % m for m in info2.libm]
+        out.append("def %s_result %s : %s :=\n  %s\n" % (stem, " ".join(sig), self.lean_type(self.rep(rexpr)), e))
+        infos.append({"name": stem + "_result", "parameters": rparams})
+        return "\n".join(out), infos
 
     def calls_self(self, n, name):
         if not isinstance(n, dict):
